@@ -11,3 +11,8 @@ Inductive item :=
 | Opt (ts : list Z) (body : list item)            (* if LA in ts: body                                          *)
 | Star (ts : list Z) (body : list item)           (* while LA in ts: body                                       *)
 | Alt (alts : list (list Z * list item)).         (* if LA in ts1: b1 elif LA in ts2: b2 ... else: NoViableAlt  *)
+
+(* edges of the lexer automaton dumped by harness/gen_antlr_lexer.py from the serialized ATN of tucanLexer.py *)
+Inductive ledge :=
+| LEps (target : nat)                                  (* epsilon transition                                        *)
+| LChars (ranges : list (N * N)) (target : nat).       (* atom / range / set transition: inclusive code-point ranges *)
